@@ -401,6 +401,62 @@ Fixpoint spec_trace (keep : bool) (cfg : nat -> sup) (fam : family) (ops : list 
   | o :: r => let fam' := spec_op keep cfg fam o in fam' :: spec_trace keep cfg fam' r
   end.
 
+(* ------------------------------------------------------------------ escalation chains (three levels) *)
+
+(* G supervises P (family [t_top], one child, G's handler records P's PanicSignals); P supervises
+   its own children (family [t_sub], P's handler records their PanicSignals).  P's handler reacts to
+   a PanicSignal by failing itself with an error of type [eP] (ctx.Err), which G then handles with
+   P's supervisor [cfgP].
+   - While P is not running, a failing child can only be suspended: notifyParent's Tell to the
+     parent is refused, so no directive is applied (Resume needs no parent action).
+   - When G stops P, P's Shutdown stops P's children first; when G restarts P, restartSubtree
+     re-initialises every descendant that is running or suspended. *)
+Record tree3 := mkT { t_top : family; t_sub : family }.
+
+Definition parent_of (t : tree3) : child := nth 0 (f_children (t_top t)) fresh_child.
+
+Definition orphan_fail (cfgC : nat -> sup) (sub : family) (f : failure) : family :=
+  let i := fl_child f in
+  let cs := f_children sub in
+  if negb (is_running cs i) then sub else
+  match directive_of (cfgC i) (fl_ety f) with
+  | Some DResume => mkFam (upd cs i set_skip) (f_escal sub)
+  | _ => mkFam (upd cs i suspend_child) (f_escal sub)
+  end.
+
+Definition chain_fail (keep : bool) (cfgP : sup) (cfgC : nat -> sup) (eP : ety) (t : tree3) (f : failure) : tree3 :=
+  let p := parent_of t in
+  match c_status p with
+  | Running =>
+      let sub1 := supervise keep cfgC (t_sub t) f in
+      if Nat.eqb (length (f_escal sub1)) (length (f_escal (t_sub t))) then mkT (t_top t) sub1
+      else
+        let top1 := supervise keep (fun _ => cfgP) (t_top t) (mkFail 0 eP (fl_now f)) in
+        let p1 := nth 0 (f_children top1) fresh_child in
+        let sub2 :=
+          match c_status p1 with
+          | Stopped => mkFam (map shutdown_child (f_children sub1)) (f_escal sub1)
+          | _ => if c_gen p1 =? c_gen p
+                 then sub1
+                 else mkFam (map (fun c => match c_status c with Stopped => c | _ => restart_child keep c end) (f_children sub1)) (f_escal sub1)
+          end in
+        mkT top1 sub2
+  | _ => mkT (t_top t) (orphan_fail cfgC (t_sub t) f)
+  end.
+
+Definition chain_ping (t : tree3) : tree3 := mkT (t_top t) (ping_all (t_sub t)).
+
+Inductive cop := CFail (f : failure) | CPing.
+
+Definition chain_op keep cfgP cfgC eP (t : tree3) (o : cop) : tree3 :=
+  match o with CFail f => chain_fail keep cfgP cfgC eP t f | CPing => chain_ping t end.
+
+Fixpoint chain_trace keep cfgP cfgC eP (t : tree3) (ops : list cop) : list tree3 :=
+  match ops with
+  | [] => []
+  | o :: r => let t' := chain_op keep cfgP cfgC eP t o in t' :: chain_trace keep cfgP cfgC eP t' r
+  end.
+
 (* ------------------------------------------------------------------ observation (what the harness sees) *)
 
 Definition status_code (s : status) : Z := match s with Running => 0 | Suspended => 1 | Stopped => 2 end.
@@ -412,3 +468,5 @@ Definition obs (fam : family) : list (list Z) * list (nat * ety) :=
   (map obs_child (f_children fam), f_escal fam).
 
 Definition fresh_family (n : nat) : family := mkFam (repeat fresh_child n) [].
+
+Definition fresh_tree (n : nat) : tree3 := mkT (fresh_family 1) (fresh_family n).
